@@ -25,6 +25,7 @@ func init() {
 			{ID: "C15-R2", Title: "object.Compare: != negates ==; ordering from one Compare sign", Floor: 5, Run: c15r2},
 			{ID: "C15-R3", Title: "HashKey is the payload itself", Floor: 5, Run: c15r3},
 			{ID: "C15-R4", Title: "no ordering by integer subtraction", Floor: 8, Run: c15r4},
+			{ID: "C15-R5", Title: "sorts by the script-level ordering are stable", Floor: 2, Run: c15r5},
 		},
 	})
 }
